@@ -115,6 +115,12 @@ func (e *Exec) hook(mu *sync.RWMutex, write bool) {
 	w := e.workers[e.running]
 	w.events++
 	e.Sites = append(e.Sites, uint32(w.id)<<28^(sitePC()&0x0fffffff))
+	if mu == nil {
+		// no lock is awaited (the point before a TryLock): a plain scheduling point
+		e.ctl <- msg{w: w.id, kind: mBoundary}
+		<-w.resume
+		return
+	}
 	w.mu, w.write, w.atHook = mu, write, true
 	e.ctl <- msg{w: w.id, kind: mHook}
 	<-w.resume
